@@ -1939,7 +1939,9 @@ def sequence_to_pianoroll(
     ]
 
     if add_blank_frame_before_onset:
-      if start_frame > 0:
+      # With onset_overlap=False a delayed onset can push start_frame past the
+      # end of the roll; there is no frame to blank then.
+      if 0 < start_frame <= roll.shape[0]:
         roll[start_frame - 1, note.pitch - min_pitch] = 0.0
         roll_weights[start_frame - 1, note.pitch - min_pitch] = 1.0
 
